@@ -15,6 +15,12 @@ def try_to_merge_ops(ops1, ops2):
     ops2_columns_produced = set([k for k in ops2.keys()])
     common_produced = ops1_columns_produced.intersection(ops2_columns_produced)
     if len(common_produced) > 0:
+        # the second step must not read anything the first step writes, and vice versa:
+        # a merged extend evaluates every expression against the same input columns
+        if len(ops2_columns_used.intersection(ops1_columns_produced)) > 0:
+            return None
+        if len(ops1_columns_used.intersection(ops2_columns_produced)) > 0:
+            return None
         ops1_common = {k: ops1[k] for k in common_produced}
         ops2_common = {k: ops2[k] for k in common_produced}
         ops1_common_columns_used = set(
